@@ -39,6 +39,9 @@ import (
 	"time"
 
 	"github.com/magefile/mage/mg"
+
+	// mage:import
+	_ "MODULE/tools"
 )
 
 var Default = Probe
@@ -179,12 +182,21 @@ func c11(c *Ctx) {
 		return h + "package main\n\nfunc platName() string { return \"" + goos + "\" }\n"
 	}
 	others := []string{"plan9", "windows", "darwin", "linux"}
-	pf := map[string]string{"go.mod": goMod("c11proj"), "magefile.go": c11Magefile, "plat_" + runtime.GOOS + ".go": platFile(runtime.GOOS, true)}
-	pf2 := map[string]string{"go.mod": goMod("c11proj2"), "magefiles/magefile.go": strings.Replace(c11Magefile, "//go:build mage\n\n", "", 1), "magefiles/plat_" + runtime.GOOS + ".go": platFile(runtime.GOOS, false)}
+	// an imported package whose targets live in platform-specific files: which of them exist is decided by `go list`,
+	// which must be asked for the host platform whatever GOOS/GOARCH the caller exports
+	toolFile := func(goos string) string {
+		return "package tools\n\n// Tool" + strings.Title(goos) + " exists on " + goos + " only.\nfunc Tool" + strings.Title(goos) + "() {}\n"
+	}
+	pf := map[string]string{"go.mod": goMod("c11proj"), "magefile.go": strings.Replace(c11Magefile, "MODULE", "c11proj", 1), "plat_" + runtime.GOOS + ".go": platFile(runtime.GOOS, true),
+		"tools/doc.go": "// Package tools is mage:import'ed.\npackage tools\n", "tools/tool_" + runtime.GOOS + ".go": toolFile(runtime.GOOS)}
+	pf2 := map[string]string{"go.mod": goMod("c11proj2"), "magefiles/magefile.go": strings.Replace(strings.Replace(c11Magefile, "//go:build mage\n\n", "", 1), "MODULE", "c11proj2", 1),
+		"magefiles/plat_" + runtime.GOOS + ".go": platFile(runtime.GOOS, false), "tools/doc.go": "// Package tools is mage:import'ed.\npackage tools\n", "tools/tool_" + runtime.GOOS + ".go": toolFile(runtime.GOOS)}
 	for _, o := range others {
 		if o != runtime.GOOS {
 			pf["plat_"+o+".go"] = platFile(o, true)
 			pf2["magefiles/plat_"+o+".go"] = platFile(o, false)
+			pf["tools/tool_"+o+".go"] = toolFile(o)
+			pf2["tools/tool_"+o+".go"] = toolFile(o)
 		}
 	}
 	writeFiles(proj, pf)
